@@ -26,7 +26,7 @@ import openfermion as of
 
 from tangelo.toolboxes.molecular_computation.coefficients import spatial_from_spinorb
 
-COEFFICIENT_TYPES = (int, float, complex, np.integer, np.floating)
+COEFFICIENT_TYPES = (int, float, complex, np.integer, np.floating, np.complexfloating)
 
 
 class FermionOperator(of.FermionOperator):
